@@ -17,4 +17,7 @@ _whole.install(globals(), "C01",
                technique="Coq theorems on Flocq binary64 operators (regenerated apply_bounds) + history-machine invariant over all event streams + vm_compute trace replay + box monitor on real runs",
                quick=200, thorough=5000, nontrivial=nontrivial, front_ends=["common"], machine_replay=False, hist_replay=True,
                forces=[(3, {"cap_evals": 900}), (1, {"cap_evals": 900, "objective_kind": "linear"}), (1, {"cap_evals": 900, "height": 2, "engines": ["SEA", "Local"]}),
-                       (1, {"cap_evals": 900, "height": 2, "engines": ["GAStyleSEA", "CMA"]})])
+                       (1, {"cap_evals": 900, "height": 2, "engines": ["GAStyleSEA", "CMA"]}),
+                       (1, {"cap_evals": 700, "height": 2, "dim": 5, "engines": ["SEA", "DE"], "levels_patch": [{}, {"sample_std": 8.0, "pop": 5}], "box_style": "sym"}),
+                       (1, {"cap_evals": 900, "height": 2, "wrappers": "cache", "box_style": "asym", "objective_kind": "linear", "engines": ["SEA", "CMA"]}),
+                       (1, {"cap_evals": 900, "height": 2, "wrappers": "cache", "box_style": "asym", "objective_kind": "sphere", "engines": ["DE", "Local"]})])
